@@ -120,6 +120,8 @@ def env():
         import frappy.modulebase
         import frappy.persistent as P
         from frappy.lib import generalConfig
+        import logging
+        logging.disable(logging.DEBUG)      # debug records of the captured loggers are never looked at
         _env['clock'] = frappy.modulebase.time = _Clock()
         _env['P'] = P
         _env['gc'] = generalConfig
@@ -211,6 +213,10 @@ def build_node(module_cfg):
         if tb:
             last = tb[0].strip().splitlines()[-1]
             exc = last.split(':')[0].strip().rpartition('.')[2]
+            # call site: the innermost function of frappy/persistent.py on the stack
+            fn = re.findall(r'persistent\.py", line \d+, in (\w+)', tb[0])
+            if fn:
+                exc += '-in-' + fn[-1].strip('_')
             text += ' | ' + last
         _drop(node)
         raise StartFailed('refused' + (':' + exc if exc else ''), text) from None
@@ -442,6 +448,13 @@ def due(o):
     return False
 
 
+class HealthyDiskFails(Exception):
+    """construct; init; change p; change r; change q; save does not even work on a healthy, empty disk"""
+    def __init__(self, kind, what, text):
+        super().__init__(text)
+        self.kind, self.what, self.text = kind, what, text
+
+
 def base_image(kind):
     """a clean disk written by the real code: p = wire[0], r = drv[1], q = 7"""
     e = env()
@@ -452,7 +465,9 @@ def base_image(kind):
         obs = sc(MemFS(EMPTY))
         data = content(obs[-1]['image'])
         if parse(data)[0] != 'object' or any('exc' in o for o in obs):
-            raise core.Inconclusive(f'cannot produce the base file for kind {kind}: {obs}')
+            bad = next((o for o in obs if 'exc' in o), obs[-1])
+            raise HealthyDiskFails(kind, bad.get('exc', 'file-' + parse(data)[0]),
+                                   f'step {" ".join(map(str, bad["step"]))}: {bad.get("msg")}; file {data!r}')
         e[key] = (clean_image(data), obs[-1]['vals'])
     return e[key]
 
@@ -543,9 +558,36 @@ class HistoryCheck:
 
     # ---- S3 along the fault-free history
     def check_clean(self):
+        prev = self.obs[0]
         for o in self.obs[1:]:
             if due(o):
                 self.check_due(o, None)
+            if o['step'][0] == 'load' and 'image' in prev:
+                self.check_load(o, prev['image'])
+            prev = o
+
+    def check_load(self, o, image):
+        """S3 for loadParameters() (power cycle): every persistent parameter now holds what the file holds"""
+        part = self.part
+        part.traces += 1
+        data = content(image)
+        if parse(data)[0] != 'object' or 'exc' in o:
+            part.outcomes[f'load:{"raises" if "exc" in o else "no-file"}'] += 1
+            if 'exc' in o:
+                part.violation(f'C17:loadParameters:{self.kind}:raises-{norm(o["exc"])}', self.case(check='clean'),
+                               f'{self.describe()}: loadParameters() in step {o["label"]} raised {o["exc"]}: {o.get("msg")}')
+            return
+        rec = self.rec_plain(clean_image(data))
+        if rec[0] != 'ok':
+            part.outcomes['load:file-not-loadable'] += 1
+            return      # judged by check_due / the crash checks
+        ok = same_vals(rec[1], o['vals'])
+        part.outcomes[f'load:{"restored" if ok else "NOT-restored"}'] += 1
+        if not ok:
+            diff = [x for x in PERS if not same_vals(rec[1], o['vals'], (x,))]
+            part.violation(f'C17:loadParameters:{self.kind}:parameter-not-restored', self.case(check='clean'),
+                           f'{self.describe()}: after loadParameters() in step {o["label"]} with file {data!r} the module holds '
+                           f'{o["vals"]!r}; a node started on that file holds {rec[1]!r} (differs in {diff})')
 
     def check_due(self, o, fault):
         """the file must now equal the current values.  fault: None or (op, content of the file before the fault)"""
@@ -1096,8 +1138,21 @@ def shard_roundtrip(shard):
 def shard_fn(shard):
     env()
     kinds()
-    return {'history': shard_history, 'construct': shard_construct, 'corrupt': shard_corrupt,
-            'roundtrip': shard_roundtrip}[shard[0]](shard)
+    try:
+        return {'history': shard_history, 'construct': shard_construct, 'corrupt': shard_corrupt,
+                'roundtrip': shard_roundtrip}[shard[0]](shard)
+    except HealthyDiskFails as e:
+        return healthy_fails(core.Part(), e)
+
+
+def healthy_fails(part, e):
+    part.evaluations += 1
+    part.traces += 1
+    part.outcomes['base-history-fails'] += 1
+    part.violation(f'C17:roundtrip:healthy-disk:base-history-fails:{norm(e.what)}', {'sub': 'base', 'kind': e.kind},
+                   f'kind {e.kind}: construct; writeInitParams; change p; change r; change q; saveParameters on an empty, '
+                   f'healthy disk fails: {e.what}: {e.text}')
+    return part
 
 
 # ------------------------------------------------------------------------------------------------------------
@@ -1150,6 +1205,13 @@ def replay(case):
     env()
     kinds()
     part = core.Part()
+    try:
+        return _replay(case, part)
+    except HealthyDiskFails as e:
+        return healthy_fails(part, e)
+
+
+def _replay(case, part):
     sub = case['sub']
     if sub == 'history':
         hc = HistoryCheck(part, case['kind'], case['cfg'], case['init'], case['steps'])
@@ -1180,4 +1242,9 @@ def replay(case):
                 break
     elif sub == 'roundtrip':
         check_roundtrip(part, T.fromjson(case['spec']), only=case)
+    elif sub == 'base':
+        try:
+            base_image(case['kind'])
+        except HealthyDiskFails as e:
+            healthy_fails(part, e)
     return part
